@@ -7,6 +7,7 @@ import (
 	"sort"
 	"strconv"
 	"strings"
+	"time"
 
 	"verif/internal/core"
 )
@@ -30,7 +31,22 @@ const (
 	relUnspec
 )
 
+// c04CustomDates: texts that are datetimes only under the session's own DATETIME_FORMAT '%e/%c/%y' (day/month/two-digit year,
+// each day and month in one or two digits), with the instant they denote; consulted while c04Custom is set (one case at a
+// time per worker process)
+var c04Custom bool
+var c04CustomDates = func() map[string]int64 {
+	d := func(y, m, dd int) int64 { return time.Date(y, time.Month(m), dd, 0, 0, 0, 0, time.UTC).UnixNano() }
+	return map[string]int64{"5/3/21": d(2021, 3, 5), "05/03/21": d(2021, 3, 5), "5/03/21": d(2021, 3, 5), "05/3/21": d(2021, 3, 5), "6/3/21": d(2021, 3, 6), "06/03/21": d(2021, 3, 6),
+		"15/12/20": d(2020, 12, 15), "1/1/21": d(2021, 1, 1), "01/01/21": d(2021, 1, 1), "1/01/21": d(2021, 1, 1), "31/1/21": d(2021, 1, 31)}
+}()
+
 func cellClass(s string) (cls byte, i int64, f float64, t int64, b bool, txt string) {
+	if c04Custom {
+		if id, ok := c04CustomDates[s]; ok {
+			return 'D', 0, 0, id, false, ""
+		}
+	}
 	v := rvStr(s)
 	if x, ok := v.asIntStrict(); ok {
 		return 'I', x, float64(x), 0, false, ""
@@ -82,7 +98,7 @@ func cellRel(a, b *string, strict bool) int {
 			return relDiff
 		case 'D':
 			if ta == tb {
-				return relUnspec // same instant written in two layouts
+				return relSame // one instant written in two layouts (the sessions run in UTC, like the reference)
 			}
 			return relDiff
 		case 'B':
@@ -161,6 +177,18 @@ func c04Case(w *core.Worker, i int) {
 		"ints":    profInts,
 	}
 	pnames := []string{"hostile", "hostile", "mixnum", "text", "dates", "bools", "ints"}
+	// every ninth case sets a datetime format of its own: texts that are datetimes only under that format (some shorter than
+	// any built-in notation) are bucketed by the instant they denote
+	c04Custom = i%9 == 4 && !strict
+	if c04Custom {
+		var cd []string
+		for k := range c04CustomDates {
+			cd = append(cd, k)
+		}
+		sort.Strings(cd)
+		pools["customdates"] = append(cd, "7/13/21", "x", "2021-03-05")
+		pnames = []string{"customdates", "customdates", "dates", "text"}
+	}
 	var profs []colProfile
 	var names []string
 	var kinds []string
@@ -198,6 +226,10 @@ func c04Case(w *core.Worker, i int) {
 	if err != nil {
 		w.Inconclusive(err.Error())
 		return
+	}
+	if c04Custom {
+		s.Exec("SET @@DATETIME_FORMAT TO '%e/%c/%y';")
+		w.Count("cases_with_a_datetime_format_of_the_session", 1)
 	}
 	defer s.Close()
 	keyCols := make([]int, nk)
